@@ -132,6 +132,12 @@ def true_normals(m):
     return n / np.linalg.norm(n, axis=1)[:, None]
 
 
+def normal_tol(M):
+    """Trimesh.apply_transform documents that cached normals are not transported when the linear part of the
+    matrix is within 1e-6 of the identity (has_rotation shortcut): allow that rotation, as C04 does"""
+    return 4e-6 if np.abs(np.asarray(M, dtype=np.float64)[:3, :3] - np.eye(3)).max() <= 1e-6 else 1e-9
+
+
 def normals_deviation(stored, m):
     """largest difference between stored face normals and the triangle normals, over the faces that have a normal:
     a triangle whose corners are collinear to 1e-9 (earcut emits one when vertices of different rings are collinear)
@@ -432,7 +438,7 @@ def b_flat(case, ctx):
             check_vertices_bounds(m, ref, sig, "box")
             check_measures(m, ref, sig, "box")
             dn = normals_deviation(m.face_normals, m)
-            check(dn <= 1e-9, sig + "|face_normals", f"stored face normals differ from the triangle normals by {dn:.3g}")
+            check(dn <= normal_tol(M), sig + "|face_normals", f"stored face normals differ from the triangle normals by {dn:.3g}")
             return
         rings = G.build_rings(case["polygon"])
         nh = len(rings) - 1
@@ -617,7 +623,7 @@ def check_primitive_state(P, kind, p, M, sig, rings=None):
         check_valid(P, sig + "|primitive_object", euler)
         check(np.array_equal(np.asarray(P.vertices), np.asarray(m.vertices)) and np.array_equal(np.asarray(P.faces), np.asarray(m.faces)), sig + "|to_mesh_differs", "")
         dn = normals_deviation(P.face_normals, m)
-        check(dn <= 1e-9, sig + "|face_normals", f"primitive face normals differ from the triangle normals by {dn:.3g}")
+        check(dn <= normal_tol(M), sig + "|face_normals", f"primitive face normals differ from the triangle normals by {dn:.3g}")
         if kind == "Box":
             ref = O.place(O.box(p["extents"]), M)
             check_vertices_bounds(m, ref, sig, "Box mesh")
